@@ -100,7 +100,8 @@ pub fn parse_idat(
     let mut idat_chunk_sizes = Vec::new();
     let mut pos = 0;
 
-    while pos < png_idat_stream.len() {
+    // a chunk needs at least 12 bytes (length, type and crc)
+    while pos + 12 <= png_idat_stream.len() {
         // png chunks start with the length of the chunk
         let chunk_len = u32::from_be_bytes([
             png_idat_stream[pos],
@@ -117,8 +118,13 @@ pub fn parse_idat(
             break;
         }
 
+        // a chunk size of zero terminates the serialised list of chunk sizes,
+        // so an empty chunk cannot be part of the run
+        if chunk_len == 0 {
+            break;
+        }
+
         let chunk = &png_idat_stream[pos + 8..pos + chunk_len + 8];
-        deflate_stream.extend_from_slice(chunk);
 
         let mut crc = crc32fast::Hasher::new();
         crc.update(chunk_type);
@@ -132,8 +138,11 @@ pub fn parse_idat(
                 png_idat_stream[pos + chunk_len + 11],
             ])
         {
-            return err_exit_code(ExitCode::InvalidIDat, "CRC mismatch");
+            // not a chunk we could recreate: the run of IDAT chunks ends here
+            break;
         }
+
+        deflate_stream.extend_from_slice(chunk);
 
         idat_chunk_sizes.push(chunk_len as u32);
         pos += chunk_len + 12;
@@ -143,7 +152,8 @@ pub fn parse_idat(
         println!("IDAT boundaries: {:?}", idat_chunk_sizes);
     }
 
-    if deflate_stream.len() < 3 {
+    // need at least the 2 byte zlib header and the 4 byte adler32
+    if deflate_stream.len() < 6 {
         return err_exit_code(ExitCode::InvalidIDat, "No IDAT data found");
     }
 
